@@ -13,6 +13,7 @@
 Fail closed: anything unexpected is an Untranslatable; the definition is then missing from GenC14.v and everything
 that mentions it stops compiling."""
 import ast
+import copy
 import importlib
 import os
 import sys
@@ -41,6 +42,15 @@ Fixpoint c14_list_eqb (a b : list Z) : bool :=
   end.
 Definition c14_is_none (o : option bool) : bool := match o with None => true | Some _ => false end.
 Definition c14_truthy (o : option bool) : bool := match o with Some true => true | _ => false end.
+(* the forms of the argument laz_backend: absent (None), ONE backend (true = the parallel variant; an enum member or any
+   other backend object), an ITERABLE of backends (list, tuple, set, iterator, generator) *)
+Inductive c14_form := C14Absent | C14One (p : bool) | C14Many (l : list bool).
+(* `if x is None: x = <default selection>` *)
+Definition c14_or_default (f : c14_form) (dflt : list bool) : c14_form :=
+  match f with C14Absent => C14Many dflt | _ => f end.
+(* `try: x = iter(x)  except TypeError: x = (x,)`: what the loop over x then visits (None is not a backend) *)
+Definition c14_norm_eafp (f : c14_form) : list bool :=
+  match f with C14Absent => [] | C14One p => [p] | C14Many l => l end.
 """
 
 PATH_TESTS = {
@@ -281,6 +291,163 @@ def _pop_laszip_stmt(s, owners):
     return False
 
 
+def _ends(stmts):
+    """does control never fall off the end of the statements?"""
+    if not stmts:
+        return False
+    s = stmts[-1]
+    if isinstance(s, (ast.Return, ast.Raise)):
+        return True
+    if isinstance(s, ast.If):
+        return _ends(s.body) and _ends(s.orelse)
+    if isinstance(s, ast.Try):
+        return not s.finalbody and _ends(s.body + s.orelse) and all(_ends(h.body) for h in s.handlers)
+    if isinstance(s, ast.With):
+        return _ends(s.body)
+    return False
+
+
+def _tail_inline(mod, fn, depth=3):
+    """`return helper(args)` in a function is the helper's body when the helper is a module-level function that did not exist when
+    this reader was written (tools/known_functions.json), takes plain parameters and gets side-effect free arguments: every `return`
+    of the helper returns from the caller, nothing of the caller runs afterwards.  Parameters are replaced by the arguments (a
+    parameter the helper re-binds must be given a plain name that no other argument mentions; the helper's own locals must not
+    capture a name of an argument).  Anything else is left as written."""
+    helpers = {n.name: n for n in mod.body if isinstance(n, ast.FunctionDef) and not n.decorator_list
+               and n.name not in py2v.KNOWN_FUNCTIONS and n.name != fn.name}
+
+    def expand(call):
+        h = helpers.get(call.func.id) if isinstance(call.func, ast.Name) else None
+        if h is None:
+            return None
+        a = h.args
+        if a.vararg or a.kwarg or a.posonlyargs or any(isinstance(x, ast.Starred) for x in call.args):
+            return None
+        params = [p.arg for p in a.args] + [p.arg for p in a.kwonlyargs]
+        dflt = dict(zip([p.arg for p in a.args][len(a.args) - len(a.defaults):], a.defaults))
+        dflt.update({p.arg: d for p, d in zip(a.kwonlyargs, a.kw_defaults) if d is not None})
+        if len(call.args) > len(a.args):
+            return None
+        bound = dict(zip([p.arg for p in a.args], call.args))
+        for k in call.keywords:
+            if k.arg is None or k.arg not in params or k.arg in bound:
+                return None
+            bound[k.arg] = k.value
+        for p in params:
+            if p not in bound:
+                if p not in dflt:
+                    return None
+                bound[p] = dflt[p]
+        if not all(py2v._simple_arg(e) for e in bound.values()):
+            return None
+        body = [s for s in h.body if not (isinstance(s, ast.Expr) and isinstance(s.value, ast.Constant))]
+        if any(isinstance(n, (ast.Yield, ast.YieldFrom, ast.Await, ast.Global, ast.Nonlocal, ast.FunctionDef, ast.Lambda, ast.ClassDef))
+               for s in body for n in ast.walk(s)):
+            return None
+        stored = {n.id for s in body for n in ast.walk(s) if isinstance(n, ast.Name) and isinstance(n.ctx, (ast.Store, ast.Del))}
+        stored |= {hd.name for s in body for hd in ast.walk(s) if isinstance(hd, ast.ExceptHandler) and hd.name}
+        names_of = {p: {n.id for n in ast.walk(e) if isinstance(n, ast.Name)} for p, e in bound.items()}
+        for p in params:
+            if p in stored:
+                if not isinstance(bound[p], ast.Name):
+                    return None
+                if any(bound[p].id in names_of[q] for q in params if q != p):
+                    return None
+        locs = stored - set(params)
+        if any(locs & ns for ns in names_of.values()):
+            return None
+        out = [py2v._Subst(bound).visit(copy.deepcopy(s)) for s in body]
+        if not _ends(out):
+            out.append(ast.Return(value=ast.Constant(value=None)))
+        return out
+
+    def block(stmts, d):
+        res = []
+        for s in stmts:
+            if isinstance(s, ast.Return) and isinstance(s.value, ast.Call) and d > 0:
+                r = expand(s.value)
+                if r is not None:
+                    res.extend(block(r, d - 1))
+                    continue
+            s = copy.copy(s)
+            for fld in ("body", "orelse", "finalbody"):
+                if isinstance(getattr(s, fld, None), list) and not isinstance(s, (ast.FunctionDef, ast.ClassDef)):
+                    setattr(s, fld, block(getattr(s, fld), d))
+            if isinstance(s, ast.Try):
+                s.handlers = [copy.copy(hd) for hd in s.handlers]
+                for hd in s.handlers:
+                    hd.body = block(hd.body, d)
+            res.append(s)
+        return res
+    if not helpers:
+        return fn
+    new = copy.copy(fn)
+    new.body = block(fn.body, depth)
+    return ast.fix_missing_locations(new)
+
+
+def _eafp_iter(s):
+    """try: X = iter(E)  except TypeError: X = (E,)   ->  (X, E), else None   (list(E) / tuple(E) and [E] read the same)"""
+    if not isinstance(s, ast.Try) or len(s.body) != 1 or len(s.handlers) != 1 or s.orelse or s.finalbody:
+        return None
+    a, h = s.body[0], s.handlers[0]
+    if h.type is None or _norm(h.type) != "TypeError" or len(h.body) != 1:
+        return None
+    b = h.body[0]
+    if not (isinstance(a, ast.Assign) and isinstance(b, ast.Assign) and len(a.targets) == 1 and len(b.targets) == 1):
+        return None
+    if not isinstance(a.targets[0], ast.Name) or _norm(a.targets[0]) != _norm(b.targets[0]):
+        return None
+    if not (isinstance(a.value, ast.Call) and _norm(a.value.func) in ("iter", "list", "tuple") and len(a.value.args) == 1
+            and not a.value.keywords):
+        return None
+    e = _norm(a.value.args[0])
+    if not (isinstance(b.value, (ast.Tuple, ast.List)) and len(b.value.elts) == 1 and _norm(b.value.elts[0]) == e):
+        return None
+    return a.targets[0].id, e
+
+
+def _stores(fn, name):
+    """number of places of `fn` that bind the (dotted) name: assignments, augmented assignments, for targets, with ... as, del"""
+    k = 0
+    for n in ast.walk(fn):
+        if isinstance(n, (ast.Name, ast.Attribute)) and isinstance(getattr(n, "ctx", None), (ast.Store, ast.Del)) and _norm(n) == name:
+            k += 1
+    return k
+
+
+def _normalised_loop(fn, source_expr, create, what):
+    """the body of a _create_laz_backend: the selection `source_expr` is normalised by the EAFP idiom and the ONE loop of the
+    function visits exactly the normalised value, constructing with backend.<create>(...)"""
+    b = _body(fn)
+    hits = [(i, _eafp_iter(st)) for i, st in enumerate(b)]
+    hits = [(i, r) for i, r in hits if r is not None]
+    _require(len(hits) == 1, f"{what}: exactly one `try: x = iter(sel) except TypeError: x = (sel,)`")
+    i, (x, e) = hits[0]
+    _require(e == source_expr, f"{what}: the normalised value is {e}, not {source_expr}")
+    _require(_stores(fn, x) == 2, f"{what}: {x} is bound elsewhere too")
+    if source_expr != x:
+        _require(_stores(fn, source_expr) == 0, f"{what}: {source_expr} is re-bound")
+    loops = [n for n in ast.walk(fn) if isinstance(n, (ast.For, ast.While, ast.ListComp, ast.GeneratorExp, ast.SetComp, ast.DictComp))]
+    _require(len(loops) == 1 and isinstance(loops[0], ast.For) and loops[0] in b and b.index(loops[0]) > i
+             and _norm(loops[0].iter) == x and isinstance(loops[0].target, ast.Name) and not loops[0].orelse,
+             f"{what}: one `for backend in {x}:` after the normalisation")
+    var = loops[0].target.id
+    for st in b[:b.index(loops[0])]:
+        if st is b[i]:
+            continue
+        for n in ast.walk(st):
+            _require(not (isinstance(n, ast.Call) and _norm(n.func) in ("isinstance", "issubclass", "type", "len", "iter", "next", "list", "tuple")),
+                     f"{what}: the selection is inspected before the loop: {_norm(st)[:70]}")
+    calls = [n for n in ast.walk(loops[0]) if isinstance(n, ast.Call) and _norm(n.func) == f"{var}.{create}"]
+    _require(len(calls) == 1, f"{what}: {var}.{create}(...) once in the loop")
+    for n in ast.walk(loops[0]):
+        _require(not isinstance(n, (ast.Break, ast.Continue)), f"{what}: break / continue in the loop")
+        _require(not (isinstance(n, ast.Call) and _norm(n.func) in ("isinstance", "issubclass", "type")),
+                 f"{what}: the loop looks at the type of a backend")
+    return loops[0]
+
+
 def gen(repo):
     o = Out("laspy/laswriter.py LasWriter.__init__, laspy/lib.py open_las ('w'), laspy/lasdata.py LasData.write/_write_to, "
             "laspy/lasreader.py LasReader.__init__/_create_laz_backend/_create_point_source, "
@@ -319,7 +486,7 @@ def gen(repo):
 
     def open_decision():
         lmod = parse(repo, "laspy/lib.py")
-        f = find_func(lmod, "open_las")
+        f = _tail_inline(lmod, find_func(lmod, "open_las"))      # open_las as a dispatcher onto per-mode helpers reads the same
         params = [a.arg for a in f.args.args]
         _require("do_compress" in params and "laz_backend" in params and "source" in params, "open_las parameters")
         dflt = dict(zip(params[len(params) - len(f.args.defaults):], f.args.defaults))
@@ -475,6 +642,100 @@ def gen(repo):
                  "LazrsAppender.__init__: the FIRST LasZip record of the header is used")
         return "Definition gen_backend_uses_first_laszip : bool := true.\n"
     o.add("gen_backend_uses_first_laszip", backend_lookup)
+
+    # ------------------------------------------------------------------ the forms of the argument laz_backend
+    def backend_forms():
+        """None -> the default selection; anything else is handed on UNCHANGED by every entry point down to the three
+        _create_laz_backend, which normalise it the same way (one backend -> a 1-tuple, an iterable -> itself) and loop over it"""
+        # (1) the default selection: the lazrs variants, in the order of _DEFAULT_BACKENDS / of the enum
+        sys.path.insert(0, repo)
+        importlib.import_module("laspy")
+        bk = importlib.import_module("laspy._compression.backend")
+        if not os.path.realpath(bk.__file__).startswith(os.path.realpath(repo)):
+            raise Untranslatable(f"laspy imported from {bk.__file__}, not from {repo}")
+        members = list(bk.LazBackend)
+        _require([m.value for m in members] == list(range(len(members))) and len(members) == len(bk._DEFAULT_BACKENDS),
+                 "LazBackend members are not the indices of _DEFAULT_BACKENDS")
+        dflt, app = [], []
+        for m, impl in zip(members, bk._DEFAULT_BACKENDS):
+            _require(m._get() is impl, f"LazBackend.{m.name} does not stand for _DEFAULT_BACKENDS[{m.value}]")
+            if type(impl).__name__ == "LazrsBackend":
+                _require(isinstance(impl._parallel, bool), "LazrsBackend._parallel")
+                dflt.append(impl._parallel)
+                if impl.supports_append is True:
+                    app.append(impl._parallel)
+        _require(len(dflt) == 2 and set(dflt) == {True, False}, f"the lazrs variants among the default backends: {dflt}")
+        bcls = find_class(parse(repo, "laspy/_compression/backend.py"), "LazBackend")
+        da = find_func(bcls, "detect_available")
+        _require(_norm(_body(da)[-1]) == "return tuple((laz_backend for backend, laz_backend in zip(_DEFAULT_BACKENDS, cls) if backend.is_available()))"
+                 and len(_body(da)) == 1, "LazBackend.detect_available: the available members, in the order of the enum")
+        # (2) the reader keeps the argument (None -> the default) and normalises it when the point source is created
+        ini = find_func(rcls, "__init__")
+        lines = [_norm(x) for x in _body(ini)]
+        _require(any(isinstance(x, ast.If) and _norm(x.test) == "laz_backend is None" and not x.orelse
+                     and [_norm(y) for y in x.body] == ["laz_backend = LazBackend.detect_available()"] for x in _body(ini)),
+                 "LasReader.__init__: if laz_backend is None: laz_backend = LazBackend.detect_available()")
+        _require("self.laz_backend = laz_backend" in lines and _stores(rcls, "self.laz_backend") == 1 and _stores(ini, "laz_backend") == 1,
+                 "LasReader.__init__: self.laz_backend = laz_backend, bound nowhere else")
+        _normalised_loop(find_func(rcls, "_create_laz_backend"), "self.laz_backend", "create_reader", "LasReader._create_laz_backend")
+        # (3) the writer
+        wl = [_norm(x) for x in ast.walk(winit) if isinstance(x, ast.Assign) and _norm(x.targets[0]) == "self.laz_backend"]
+        _require(sorted(wl) == ["self.laz_backend = LazBackend.detect_available()", "self.laz_backend = laz_backend"]
+                 and _stores(wcls, "self.laz_backend") == 2 and _stores(winit, "laz_backend") == 0,
+                 "LasWriter.__init__: self.laz_backend = laz_backend | LazBackend.detect_available(), bound nowhere else")
+        wc = [x for x in ast.walk(winit) if isinstance(x, ast.Call) and _norm(x.func) == "self._create_laz_backend"]
+        _require(len(wc) == 1 and [_norm(x) for x in wc[0].args] == ["self.laz_backend"] and not wc[0].keywords,
+                 "LasWriter.__init__: self._create_laz_backend(self.laz_backend)")
+        wf = find_func(wcls, "_create_laz_backend")
+        _require(len(wf.args.args) == 2, "LasWriter._create_laz_backend(self, selection)")
+        _normalised_loop(wf, wf.args.args[1].arg, "create_writer", "LasWriter._create_laz_backend")
+        # (4) the appender
+        amod = parse(repo, "laspy/lasappender.py")
+        acls = find_class(amod, "LasAppender")
+        ai = find_func(acls, "__init__")
+        _require(any(isinstance(x, ast.If) and _norm(x.test) == "laz_backend is None" and not x.orelse
+                     and [_norm(y) for y in x.body] == ["laz_backend = [bck for bck in LazBackend.detect_available() if bck.supports_append]"]
+                     for x in _body(ai)) and _stores(ai, "laz_backend") == 1,
+                 "LasAppender.__init__: if laz_backend is None: the available backends that support appending")
+        ac = [x for x in ast.walk(ai) if isinstance(x, ast.Call) and _norm(x.func) == "self._create_laz_backend"]
+        _require(len(ac) == 1 and [_norm(x) for x in ac[0].args] == ["laz_backend"] and not ac[0].keywords,
+                 "LasAppender.__init__: self._create_laz_backend(laz_backend)")
+        af = find_func(acls, "_create_laz_backend")
+        _require(len(af.args.args) == 2, "LasAppender._create_laz_backend(self, selection)")
+        _normalised_loop(af, af.args.args[1].arg, "create_appender", "LasAppender._create_laz_backend")
+        # (5) the entry points hand the argument on as it is
+        lmod = parse(repo, "laspy/lib.py")
+        ol = _tail_inline(lmod, find_func(lmod, "open_las"))
+        _require(_stores(ol, "laz_backend") == 0, "open_las re-binds laz_backend")
+        seen = set()
+        for n in ast.walk(ol):
+            if isinstance(n, ast.Call) and _norm(n.func) in ("LasReader", "LasWriter", "LasAppender"):
+                _require(any(k.arg == "laz_backend" and _norm(k.value) == "laz_backend" for k in n.keywords),
+                         f"open_las: {_norm(n.func)}(..., laz_backend=laz_backend)")
+                seen.add(_norm(n.func))
+        _require(seen == {"LasReader", "LasWriter", "LasAppender"}, f"open_las constructs {sorted(seen)}")
+        rl = find_func(lmod, "read_las")
+        _require(_stores(rl, "laz_backend") == 0 and any(
+            isinstance(n, ast.Call) and _norm(n.func) == "open_las" and any(k.arg == "laz_backend" and _norm(k.value) == "laz_backend" for k in n.keywords)
+            for n in ast.walk(rl)), "read_las: open_las(..., laz_backend=laz_backend)")
+        dcls = find_class(parse(repo, "laspy/lasdata.py"), "LasData")
+        for fn in [n for n in dcls.body if isinstance(n, ast.FunctionDef) and n.name in ("write", "_write_to")
+                   and not any("overload" in _norm(d) for d in n.decorator_list)]:
+            _require(_stores(fn, "laz_backend") == 0, f"LasData.{fn.name} re-binds laz_backend")
+            calls = [n for n in ast.walk(fn) if isinstance(n, ast.Call) and _norm(n.func) in ("self._write_to", "LasWriter")]
+            _require(calls and all(any(k.arg == "laz_backend" and _norm(k.value) == "laz_backend" for k in c.keywords) for c in calls),
+                     f"LasData.{fn.name}: laz_backend=laz_backend handed on")
+
+        def lst(l):
+            return "[" + "; ".join("true" if x else "false" for x in l) + "]"
+        return ("(* the default selection (lazrs installed): the variants of _DEFAULT_BACKENDS in the order of the enum (true = parallel) *)\n"
+                f"Definition gen_default_backends : list bool := {lst(dflt)}.\n"
+                f"Definition gen_default_append_backends : list bool := {lst(app)}.\n"
+                "(* what the loop of the three _create_laz_backend visits for an argument of the given form *)\n"
+                "Definition gen_reader_backends (f : c14_form) : list bool := c14_norm_eafp (c14_or_default f gen_default_backends).\n"
+                "Definition gen_writer_backends (f : c14_form) : list bool := c14_norm_eafp (c14_or_default f gen_default_backends).\n"
+                "Definition gen_appender_backends (f : c14_form) : list bool := c14_norm_eafp (c14_or_default f gen_default_append_backends).\n")
+    o.add("gen_backend_forms", backend_forms)
 
     # ------------------------------------------------------------------ the decompression selection
     def _selection_class():
